@@ -1022,6 +1022,16 @@ impl UtpStreamReadHalf {
         queue.verif_fp(out);
     }
 
+    /// Verification hook: is a reader waker registered, and would it wake `current`?
+    pub fn verif_reader_waker_wakes(&self, current: &std::task::Waker) -> Option<bool> {
+        self.shared
+            .locked
+            .lock()
+            .reader_waker
+            .as_ref()
+            .map(|w| w.will_wake(current))
+    }
+
     /// Verification hook: the read half's private state (partially consumed message, EOF flag).
     pub fn verif_fp(&self, out: &mut Vec<u64>) {
         let UtpStreamReadHalf {
